@@ -110,7 +110,9 @@ def cancel_policy(which):
 def prove_connect(src_root, ex: Explorer):
     # failure kinds of the attempt: OS level, time-out, and any OTHER exception (e.g. OverflowError for a port outside 0..65535 that a peer
     # announced, ValueError from the resolver): every one must leave the connection CLOSED and unregistered
-    outcomes = ['ok', 'OSError', 'TimeoutError', 'cancelled', 'OverflowError', 'ValueError']
+    # 'closed-meanwhile': while the TCP connect is in flight somebody disconnects this (registered, CONNECTING) connection - what
+    # Network.disconnect() does to every registered connection on stop(); then the TCP connect completes
+    outcomes = ['ok', 'OSError', 'TimeoutError', 'cancelled', 'OverflowError', 'ValueError', 'closed-meanwhile']
 
     def path(ctx: Ctx):
         it = mk(src_root, ctx)
@@ -123,10 +125,17 @@ def prove_connect(src_root, ex: Explorer):
         w.registry.append(c)
         oc = outcomes[ctx.choose(len(outcomes), 'open_connection')]
 
+        late_writer = []
+
         def open_connection(it2, a, k):
             def body(it3):
                 if oc == 'ok':
                     return (Stub('reader'), w.data_connection().attrs['_writer'])
+                if oc == 'closed-meanwhile':
+                    it3.await_value(it3.call(it3.getattr(c, 'disconnect'), [enum(it3, CONN, 'CloseReason', 'REQUESTED')], {}))
+                    other = w.data_connection()
+                    late_writer.append(other)
+                    return (Stub('reader'), other.attrs['_writer'])
                 if oc == 'cancelled':
                     it3.throw('CancelledError')
                 it3.throw(oc, 'connect failed')
@@ -143,6 +152,12 @@ def prove_connect(src_root, ex: Explorer):
         final = c.attrs['state'].name
         if oc == 'ok':
             ctx.prove(f'C10.connect.exit[{tag}]', raised is None and final == 'CONNECTED' and seq == ['CONNECTING', 'CONNECTED'])
+        elif oc == 'closed-meanwhile':
+            closed_late = bool(late_writer) and bool(late_writer[0].ghost['writer_closed'])
+            ctx.prove(f'C10.connect.exit[{tag}]', raised == 'ConnectionFailedError' and final == 'CLOSED' and seq == ['CONNECTING', 'CLOSING', 'CLOSED']
+                      and not any(x is c for x in w.registry) and closed_late,
+                      f'disconnected while connecting: reported {seq}, ends {final}, raised {raised}, socket opened afterwards closed: {closed_late} - a '
+                      'connection that was reported CLOSED (and left the registry) comes back CONNECTED with an open socket nobody can close')
         elif oc == 'cancelled':
             ctx.prove(f'C10.connect.exit[{tag}]', raised == 'CancelledError' and final == 'CLOSED' and not any(x is c for x in w.registry),
                       f'a cancelled connect() leaves the connection {final} and {"registered" if any(x is c for x in w.registry) else "unregistered"}: '
